@@ -1,4 +1,760 @@
-pub fn main(_ctx: &vcore::Ctx) {
-    eprintln!("not built yet");
-    std::process::exit(2);
+//! C36 — entity deletion follows the DDS preconditions (model R-ENTITY).
+//!
+//! 1–2 participants in one domain; a generated history of create / delete / operate over the entity tree
+//! participant → {publishers → writers, subscribers → readers, topics, content-filtered topics}, including
+//! deletes of non-empty parents, of topics in use, through the wrong parent, of already deleted entities,
+//! operations on deleted handles, `delete_contained_entities` and `delete_participant`. Every result is
+//! compared with the model; "changes nothing" is verified by probing the survivors after every refused
+//! deletion and by a final sweep over every entity ever created.
+
+use dust_dds::{
+    dds_async::{
+        content_filtered_topic::ContentFilteredTopicAsync, data_reader::DataReaderAsync,
+        data_writer::DataWriterAsync, domain_participant::DomainParticipantAsync, publisher::PublisherAsync,
+        subscriber::SubscriberAsync, topic::TopicAsync,
+    },
+    infrastructure::{
+        listener::NO_LISTENER,
+        qos::QosKind,
+        sample_info::{ANY_INSTANCE_STATE, ANY_SAMPLE_STATE, ANY_VIEW_STATE},
+        status::NO_STATUS,
+    },
+};
+use proptest::prelude::*;
+use serde::{Deserialize, Serialize};
+use serde_json::json;
+use sim::{
+    case::{CaseResult, apply_abort, sim_stats},
+    exec,
+    props::{Campaign, campaign},
+    types::KeyedData,
+    util::factory,
+};
+use vcore::{Ctx, Meta, fork::Limits, pt::idx};
+
+use crate::common::{Mismatch, R, call, pick_verdict, r_of};
+
+#[derive(Clone, Copy, Debug, PartialEq, Eq, Serialize, Deserialize)]
+pub enum K {
+    Pub,
+    Sub,
+    Topic,
+    Cft,
+    Writer,
+    Reader,
+}
+
+impl K {
+    fn name(self) -> &'static str {
+        match self {
+            K::Pub => "publisher",
+            K::Sub => "subscriber",
+            K::Topic => "topic",
+            K::Cft => "contentfilteredtopic",
+            K::Writer => "writer",
+            K::Reader => "reader",
+        }
+    }
+}
+
+#[derive(Clone, Debug, PartialEq, Serialize, Deserialize)]
+pub enum Op {
+    /// `a` selects the parent (publisher/subscriber, among all ever created), `b` the (related) topic
+    Create { p: u8, kind: K, a: u16, b: u16 },
+    /// `sel` selects among all entities of the kind ever created in participant `p` (live or deleted);
+    /// `wrong_parent`: call the delete operation on another parent (`via` selects it): another
+    /// publisher/subscriber of the participant, resp. the other participant
+    Delete { p: u8, kind: K, sel: u16, wrong_parent: bool, via: u16 },
+    /// get_qos (+ write / take / create a child) on a live or deleted entity
+    Operate { p: u8, kind: K, sel: u16 },
+    DeleteContained { p: u8 },
+    DeleteParticipant { p: u8 },
+    ParticipantGetQos { p: u8 },
+}
+
+#[derive(Clone, Debug, Serialize, Deserialize)]
+pub struct Case {
+    pub participants: u8,
+    /// re-use the names of deleted topics for new topics
+    pub reuse_topic_names: bool,
+    pub ops: Vec<Op>,
+}
+
+fn kind_strategy() -> impl Strategy<Value = K> {
+    prop_oneof![
+        3 => Just(K::Pub),
+        3 => Just(K::Sub),
+        3 => Just(K::Topic),
+        1 => Just(K::Cft),
+        4 => Just(K::Writer),
+        4 => Just(K::Reader),
+    ]
+}
+
+pub fn strategy(thorough: bool) -> BoxedStrategy<Case> {
+    let max_ops = if thorough { 80 } else { 40 };
+    (prop_oneof![4 => Just(1u8), 1 => Just(2u8)], prop_oneof![5 => Just(false), 1 => Just(true)])
+        .prop_flat_map(move |(participants, reuse_topic_names)| {
+            let p = 0..participants;
+            let op = prop_oneof![
+                10 => (p.clone(), kind_strategy(), any::<u16>(), any::<u16>()).prop_map(|(p, kind, a, b)| Op::Create { p, kind, a, b }),
+                8 => (p.clone(), kind_strategy(), any::<u16>(), prop_oneof![5 => Just(false), 1 => Just(true)], any::<u16>())
+                    .prop_map(|(p, kind, sel, wrong_parent, via)| Op::Delete { p, kind, sel, wrong_parent, via }),
+                5 => (p.clone(), kind_strategy(), any::<u16>()).prop_map(|(p, kind, sel)| Op::Operate { p, kind, sel }),
+                1 => p.clone().prop_map(|p| Op::DeleteContained { p }),
+                1 => p.clone().prop_map(|p| Op::DeleteParticipant { p }),
+                1 => p.clone().prop_map(|p| Op::ParticipantGetQos { p }),
+            ];
+            prop::collection::vec(op, 3..=max_ops).prop_map(move |ops| Case { participants, reuse_topic_names, ops })
+        })
+        .boxed()
+}
+
+// ------------------------------------------------------------------------------------------------
+
+#[derive(Clone)]
+enum Obj {
+    Pub(PublisherAsync),
+    Sub(SubscriberAsync),
+    Topic(TopicAsync),
+    Cft(ContentFilteredTopicAsync),
+    Writer(DataWriterAsync<KeyedData>),
+    Reader(DataReaderAsync<KeyedData>),
+}
+
+struct Ent {
+    kind: K,
+    alive: bool,
+    /// index of the parent publisher/subscriber (writers/readers)
+    parent: Option<usize>,
+    /// index of the topic (writers/readers) or related topic (cft)
+    topic: Option<usize>,
+    name: String,
+    obj: Obj,
+}
+
+struct PM {
+    alive: bool,
+    obj: DomainParticipantAsync,
+    ents: Vec<Ent>,
+    topic_names_used: u32,
+    /// how content-filtered topics of this participant went away (shape of delete_participant verdicts)
+    cft_deleted_explicitly: bool,
+    cft_deleted_by_contained: bool,
+}
+
+impl PM {
+    fn of_kind(&self, k: K) -> Vec<usize> {
+        self.ents.iter().enumerate().filter(|(_, e)| e.kind == k).map(|(i, _)| i).collect()
+    }
+    fn has_alive_children(&self, i: usize) -> bool {
+        self.ents.iter().any(|e| e.alive && e.parent == Some(i))
+    }
+    fn topic_in_use(&self, i: usize) -> bool {
+        self.ents.iter().any(|e| e.alive && e.topic == Some(i) && matches!(e.kind, K::Writer | K::Reader))
+    }
+    fn topic_has_cft(&self, i: usize) -> bool {
+        self.ents.iter().any(|e| e.alive && e.topic == Some(i) && e.kind == K::Cft)
+    }
+    fn is_empty(&self) -> bool {
+        !self.ents.iter().any(|e| e.alive)
+    }
+    fn emptied_shape(&self) -> &'static str {
+        match (self.ents.is_empty(), self.cft_deleted_explicitly, self.cft_deleted_by_contained) {
+            (true, _, _) => "never-used",
+            (_, false, false) => "emptied",
+            (_, true, _) => "emptied-had-cft-deleted-explicitly",
+            (_, false, true) => "emptied-had-cft-removed-by-delete-contained",
+        }
+    }
+    /// a live topic with the same name as (dead) topic `i` exists: the old object is aliased by name
+    fn aliased(&self, i: usize) -> bool {
+        let e = &self.ents[i];
+        e.kind == K::Topic && !e.alive && self.ents.iter().any(|o| o.alive && o.kind == K::Topic && o.name == e.name)
+    }
+}
+
+#[derive(Default, Clone, Debug, Serialize, Deserialize)]
+pub struct Out {
+    pub setup_error: Option<String>,
+    pub mismatches: Vec<Mismatch>,
+    pub classes: Vec<String>,
+    pub ops_done: usize,
+    pub checks: u32,
+    pub refused_deletes: u32,
+    pub deleted_handle_ops: u32,
+    pub trace: Vec<String>,
+}
+
+impl Out {
+    fn class(&mut self, c: &str) {
+        if !self.classes.iter().any(|x| x == c) {
+            self.classes.push(c.to_string());
+        }
+    }
+}
+
+struct Env {
+    ps: Vec<PM>,
+    out: Out,
+    seq: u32,
+    stop: bool,
+    reuse: bool,
+}
+
+const AD: &[&str] = &["AlreadyDeleted"];
+const PNM: &[&str] = &["PreconditionNotMet"];
+const PNM_OR_AD: &[&str] = &["PreconditionNotMet", "AlreadyDeleted"];
+const ANY_ERR: &[&str] = &[
+    "AlreadyDeleted",
+    "PreconditionNotMet",
+    "BadParameter",
+    "Error",
+    "IllegalOperation",
+    "NotEnabled",
+    "Unsupported",
+    "OutOfResources",
+];
+
+/// allowed results: `ok` and/or a set of error names
+#[derive(Clone, Copy)]
+struct Want {
+    ok: bool,
+    errs: &'static [&'static str],
+}
+const OK: Want = Want { ok: true, errs: &[] };
+fn err(errs: &'static [&'static str]) -> Want {
+    Want { ok: false, errs }
+}
+
+impl Want {
+    fn allows(&self, r: &R) -> bool {
+        match r {
+            R::Ok => self.ok,
+            R::Err(e) => self.errs.contains(e) || (*e == "NoData" && self.ok),
+            R::Hang => false,
+        }
+    }
+    fn show(&self) -> String {
+        let mut v: Vec<&str> = vec![];
+        if self.ok {
+            v.push("Ok");
+        }
+        v.extend(self.errs.iter().copied());
+        v.join("|")
+    }
+}
+
+impl Env {
+    /// Compare and record. `sub` = sub-oracle, `shape` = stable shape of the situation.
+    fn check(&mut self, sub: &str, shape: &str, what: &str, want: Want, got: &R) -> bool {
+        self.out.checks += 1;
+        self.out.trace.push(format!("{what} -> {}", got.name()));
+        if *got == R::Hang {
+            self.out.mismatches.push((format!("C36:hang:{sub}:{shape}"), format!("{what} did not return")));
+            self.stop = true;
+            return false;
+        }
+        if want.allows(got) {
+            return true;
+        }
+        let tr = self.out.trace.len();
+        self.out.mismatches.push((
+            format!("C36:{sub}:{shape}:want-{}-got-{}", want.show(), got.name()),
+            format!(
+                "op #{}: {what}: got {}, demanded {} (history: {})",
+                self.out.ops_done,
+                got.name(),
+                want.show(),
+                self.out.trace[tr.saturating_sub(12)..].join("; ")
+            ),
+        ));
+        false
+    }
+
+    async fn probe(&mut self, p: usize, i: usize, sub: &str, shape_prefix: &str) {
+        // get_qos (and a data operation) on entity i; expectation from the model
+        let pm_alive = self.ps[p].alive;
+        let e_alive = self.ps[p].ents[i].alive && pm_alive;
+        let aliased = self.ps[p].aliased(i) && pm_alive;
+        let kind = self.ps[p].ents[i].kind;
+        let obj = self.ps[p].ents[i].obj.clone();
+        let want = if e_alive { OK } else { err(AD) };
+        let state = if e_alive {
+            "live"
+        } else if aliased {
+            "deleted-topic-whose-name-was-reused"
+        } else if !pm_alive {
+            "participant-deleted"
+        } else {
+            "deleted"
+        };
+        if !e_alive {
+            self.out.deleted_handle_ops += 1;
+            self.out.class("op-on-deleted-entity");
+        }
+        let label = format!("{} #{i} of participant {p} ({state})", kind.name());
+        let shape = format!("{shape_prefix}{}:{state}", kind.name());
+        // the sub-oracle names what is judged, not which op of the history triggered the probe
+        let sub = if !e_alive { "deleted-entity" } else if sub == "unchanged-after-refusal" { sub } else { "live-entity" };
+        match obj {
+            Obj::Pub(x) => {
+                let r = r_of(&call(x.get_qos()).await);
+                self.check(sub, &format!("{shape}:get_qos"), &format!("get_qos on {label}"), want, &r);
+                let r = r_of(&call(x.get_default_datawriter_qos()).await);
+                self.check(sub, &format!("{shape}:get_default_datawriter_qos"), &format!("get_default_datawriter_qos on {label}"), want, &r);
+            }
+            Obj::Sub(x) => {
+                let r = r_of(&call(x.get_qos()).await);
+                self.check(sub, &format!("{shape}:get_qos"), &format!("get_qos on {label}"), want, &r);
+            }
+            Obj::Topic(x) => {
+                let r = r_of(&call(x.get_qos()).await);
+                self.check(sub, &format!("{shape}:get_qos"), &format!("get_qos on {label}"), want, &r);
+            }
+            Obj::Cft(_) => {}
+            Obj::Writer(x) => {
+                let r = r_of(&call(x.get_qos()).await);
+                self.check(sub, &format!("{shape}:get_qos"), &format!("get_qos on {label}"), want, &r);
+                self.seq += 1;
+                let s = KeyedData { id: (self.seq % 251) as u8, seq: self.seq, blob: vec![1, 2, 3] };
+                let r = r_of(&call(x.write(s, None)).await);
+                self.check(sub, &format!("{shape}:write"), &format!("write on {label}"), want, &r);
+            }
+            Obj::Reader(x) => {
+                let r = r_of(&call(x.get_qos()).await);
+                self.check(sub, &format!("{shape}:get_qos"), &format!("get_qos on {label}"), want, &r);
+                let r = r_of(&call(x.take(8, ANY_SAMPLE_STATE, ANY_VIEW_STATE, ANY_INSTANCE_STATE)).await);
+                self.check(sub, &format!("{shape}:take"), &format!("take on {label}"), want, &r);
+            }
+        }
+    }
+
+    /// After a refused deletion: the target and everything below it must still work.
+    async fn probe_survivors(&mut self, p: usize, i: usize) {
+        self.probe(p, i, "unchanged-after-refusal", "").await;
+        let kids: Vec<usize> = self.ps[p]
+            .ents
+            .iter()
+            .enumerate()
+            .filter(|(_, e)| e.alive && (e.parent == Some(i) || (e.topic == Some(i) && e.kind != K::Cft)))
+            .map(|(j, _)| j)
+            .collect();
+        for j in kids {
+            self.probe(p, j, "unchanged-after-refusal", "child-").await;
+        }
+    }
+
+    async fn create(&mut self, p: usize, kind: K, a: u16, b: u16) {
+        let pm_alive = self.ps[p].alive;
+        let part = self.ps[p].obj.clone();
+        match kind {
+            K::Pub => {
+                let r = call(part.create_publisher(QosKind::Default, NO_LISTENER, NO_STATUS)).await;
+                let got = r_of(&r);
+                let want = if pm_alive { OK } else { err(AD) };
+                let state = if pm_alive { "live-participant" } else { "deleted-participant" };
+                self.check("create", &format!("publisher:{state}"), &format!("create_publisher on participant {p}"), want, &got);
+                if let Some(Ok(x)) = r {
+                    self.ps[p].ents.push(Ent { kind, alive: true, parent: None, topic: None, name: String::new(), obj: Obj::Pub(x) });
+                }
+            }
+            K::Sub => {
+                let r = call(part.create_subscriber(QosKind::Default, NO_LISTENER, NO_STATUS)).await;
+                let got = r_of(&r);
+                let want = if pm_alive { OK } else { err(AD) };
+                let state = if pm_alive { "live-participant" } else { "deleted-participant" };
+                self.check("create", &format!("subscriber:{state}"), &format!("create_subscriber on participant {p}"), want, &got);
+                if let Some(Ok(x)) = r {
+                    self.ps[p].ents.push(Ent { kind, alive: true, parent: None, topic: None, name: String::new(), obj: Obj::Sub(x) });
+                }
+            }
+            K::Topic => {
+                // names: T<n>; with reuse the lowest-numbered name whose topic is not alive
+                let name = if self.ps[p].ents.iter().any(|e| e.kind == K::Topic) && self.reuse_names() {
+                    let mut n = 0;
+                    loop {
+                        let cand = format!("T{n}");
+                        if !self.ps[p].ents.iter().any(|e| e.kind == K::Topic && e.alive && e.name == cand) {
+                            break cand;
+                        }
+                        n += 1;
+                    }
+                } else {
+                    let n = self.ps[p].topic_names_used;
+                    format!("T{n}")
+                };
+                self.ps[p].topic_names_used += 1;
+                let r = call(part.create_topic::<KeyedData>(&name, "KeyedData", QosKind::Default, NO_LISTENER, NO_STATUS)).await;
+                let got = r_of(&r);
+                let want = if pm_alive { OK } else { err(AD) };
+                let state = if pm_alive { "live-participant" } else { "deleted-participant" };
+                self.check("create", &format!("topic:{state}"), &format!("create_topic {name} on participant {p}"), want, &got);
+                if let Some(Ok(x)) = r {
+                    self.ps[p].ents.push(Ent { kind, alive: true, parent: None, topic: None, name, obj: Obj::Topic(x) });
+                }
+            }
+            K::Cft => {
+                let topics = self.ps[p].of_kind(K::Topic);
+                if topics.is_empty() {
+                    return;
+                }
+                let t = topics[idx(b, topics.len())];
+                let t_alive = self.ps[p].ents[t].alive && pm_alive;
+                if self.ps[p].aliased(t) {
+                    return;
+                }
+                let Obj::Topic(tobj) = self.ps[p].ents[t].obj.clone() else { return };
+                let name = format!("F{}", self.ps[p].ents.len());
+                let r = call(part.create_contentfilteredtopic(&name, &tobj, "id = %0".to_string(), vec!["1".to_string()])).await;
+                let got = r_of(&r);
+                let want = if t_alive { OK } else { err(ANY_ERR) };
+                let state = if !pm_alive { "deleted-participant" } else if t_alive { "live-topic" } else { "deleted-topic" };
+                self.check("create", &format!("contentfilteredtopic:{state}"), &format!("create_contentfilteredtopic on topic #{t} of participant {p}"), want, &got);
+                if let Some(Ok(x)) = r {
+                    self.ps[p].ents.push(Ent { kind, alive: true, parent: None, topic: Some(t), name, obj: Obj::Cft(x) });
+                }
+            }
+            K::Writer | K::Reader => {
+                let pk = if kind == K::Writer { K::Pub } else { K::Sub };
+                let parents = self.ps[p].of_kind(pk);
+                let topics = self.ps[p].of_kind(K::Topic);
+                if parents.is_empty() || topics.is_empty() {
+                    return;
+                }
+                let pa = parents[idx(a, parents.len())];
+                let t = topics[idx(b, topics.len())];
+                if self.ps[p].aliased(t) {
+                    // creating through a deleted topic object whose name lives again: not specified, skip
+                    return;
+                }
+                let pa_alive = self.ps[p].ents[pa].alive && pm_alive;
+                let t_alive = self.ps[p].ents[t].alive && pm_alive;
+                let want = if pa_alive && t_alive {
+                    OK
+                } else if !pa_alive && t_alive {
+                    err(AD)
+                } else {
+                    // deleted topic passed as argument: some error, which one is not documented
+                    err(ANY_ERR)
+                };
+                let state = match (pm_alive, pa_alive, t_alive) {
+                    (false, _, _) => "deleted-participant",
+                    (_, true, true) => "live-parent-live-topic",
+                    (_, false, true) => "deleted-parent",
+                    (_, true, false) => "deleted-topic",
+                    _ => "deleted-parent-deleted-topic",
+                };
+                if !pa_alive || !t_alive {
+                    self.out.deleted_handle_ops += 1;
+                    self.out.class("op-on-deleted-entity");
+                }
+                let Obj::Topic(tobj) = self.ps[p].ents[t].obj.clone() else { return };
+                match self.ps[p].ents[pa].obj.clone() {
+                    Obj::Pub(x) => {
+                        let r = call(x.create_datawriter::<KeyedData>(&tobj, QosKind::Default, NO_LISTENER, NO_STATUS)).await;
+                        let got = r_of(&r);
+                        self.check("create", &format!("writer:{state}"), &format!("create_datawriter on publisher #{pa} topic #{t} of participant {p}"), want, &got);
+                        if let Some(Ok(w)) = r {
+                            self.ps[p].ents.push(Ent { kind, alive: true, parent: Some(pa), topic: Some(t), name: String::new(), obj: Obj::Writer(w) });
+                        }
+                    }
+                    Obj::Sub(x) => {
+                        let r = call(x.create_datareader::<KeyedData>(&tobj, QosKind::Default, NO_LISTENER, NO_STATUS)).await;
+                        let got = r_of(&r);
+                        self.check("create", &format!("reader:{state}"), &format!("create_datareader on subscriber #{pa} topic #{t} of participant {p}"), want, &got);
+                        if let Some(Ok(w)) = r {
+                            self.ps[p].ents.push(Ent { kind, alive: true, parent: Some(pa), topic: Some(t), name: String::new(), obj: Obj::Reader(w) });
+                        }
+                    }
+                    _ => {}
+                }
+            }
+        }
+    }
+
+    fn reuse_names(&self) -> bool {
+        self.reuse
+    }
+
+    async fn delete(&mut self, p: usize, kind: K, sel: u16, wrong_parent: bool, via: u16) {
+        let all = self.ps[p].of_kind(kind);
+        if all.is_empty() {
+            return;
+        }
+        let i = all[idx(sel, all.len())];
+        let pm_alive = self.ps[p].alive;
+        let e_alive = self.ps[p].ents[i].alive && pm_alive;
+        if kind == K::Topic && self.ps[p].aliased(i) {
+            // deleting through a stale topic object whose name is in use again would delete the new topic
+            // (topics are addressed by name): covered by the probe of aliased objects, not exercised here
+            return;
+        }
+        let obj = self.ps[p].ents[i].obj.clone();
+        if !e_alive {
+            self.out.deleted_handle_ops += 1;
+            self.out.class("delete-of-deleted-entity");
+        }
+        let label = format!("{} #{i} of participant {p}", kind.name());
+        match kind {
+            K::Pub | K::Sub | K::Topic | K::Cft => {
+                // parent = participant; wrong parent = the other participant
+                let other = if wrong_parent && self.ps.len() > 1 && kind != K::Cft { Some(1 - p) } else { None };
+                let caller = other.unwrap_or(p);
+                let caller_obj = self.ps[caller].obj.clone();
+                let caller_alive = self.ps[caller].alive;
+                let (want, state): (Want, &str) = if other.is_some() {
+                    self.out.class("delete-through-wrong-parent");
+                    if caller_alive && e_alive {
+                        (err(PNM), "wrong-participant")
+                    } else {
+                        (err(PNM_OR_AD), "wrong-participant-something-deleted")
+                    }
+                } else if !e_alive {
+                    (err(AD), if pm_alive { "already-deleted" } else { "participant-deleted" })
+                } else {
+                    match kind {
+                        K::Pub | K::Sub if self.ps[p].has_alive_children(i) => (err(PNM), "has-children"),
+                        K::Topic if self.ps[p].topic_in_use(i) => (err(PNM), "in-use"),
+                        // DDS 1.4 also forbids deleting a topic a ContentFilteredTopic relates to; the doc comment
+                        // of delete_topic only names readers and writers -> either result accepted
+                        K::Topic if self.ps[p].topic_has_cft(i) => (Want { ok: true, errs: PNM }, "related-to-cft"),
+                        _ => (OK, "deletable"),
+                    }
+                };
+                let r = match &obj {
+                    Obj::Pub(x) => r_of(&call(caller_obj.delete_publisher(x)).await),
+                    Obj::Sub(x) => r_of(&call(caller_obj.delete_subscriber(x)).await),
+                    Obj::Topic(x) => r_of(&call(caller_obj.delete_topic(x)).await),
+                    Obj::Cft(x) => r_of(&call(caller_obj.delete_contentfilteredtopic(x)).await),
+                    _ => return,
+                };
+                let what = format!("delete_{} of {label} called on participant {caller}", kind.name());
+                let ok = self.check("delete", &format!("{}:{state}", kind.name()), &what, want, &r);
+                if r == R::Ok && e_alive {
+                    self.ps[p].ents[i].alive = false;
+                    if kind == K::Cft {
+                        self.ps[p].cft_deleted_explicitly = true;
+                    }
+                    self.out.class("deleted");
+                } else if ok && e_alive && !r.is_ok() {
+                    self.out.refused_deletes += 1;
+                    self.out.class(&format!("refused:{state}"));
+                    self.probe_survivors(p, i).await;
+                }
+            }
+            K::Writer | K::Reader => {
+                let pa = self.ps[p].ents[i].parent.unwrap();
+                let pk = if kind == K::Writer { K::Pub } else { K::Sub };
+                let others: Vec<usize> = self.ps[p].of_kind(pk).into_iter().filter(|x| *x != pa).collect();
+                let via_i = if wrong_parent && !others.is_empty() { Some(others[idx(via, others.len())]) } else { None };
+                let caller = via_i.unwrap_or(pa);
+                let caller_alive = self.ps[p].ents[caller].alive && pm_alive;
+                let (want, state): (Want, &str) = if via_i.is_some() {
+                    self.out.class("delete-through-wrong-parent");
+                    if caller_alive && e_alive {
+                        (err(PNM), "wrong-parent")
+                    } else {
+                        (err(PNM_OR_AD), "wrong-parent-something-deleted")
+                    }
+                } else if !e_alive {
+                    (err(AD), if pm_alive { "already-deleted" } else { "participant-deleted" })
+                } else {
+                    (OK, "deletable")
+                };
+                let r = match (&self.ps[p].ents[caller].obj, &obj) {
+                    (Obj::Pub(c), Obj::Writer(w)) => r_of(&call(c.delete_datawriter(w)).await),
+                    (Obj::Sub(c), Obj::Reader(w)) => r_of(&call(c.delete_datareader(w)).await),
+                    _ => return,
+                };
+                let what = format!("delete_data{} of {label} called on {} #{caller}", kind.name(), pk.name());
+                let ok = self.check("delete", &format!("{}:{state}", kind.name()), &what, want, &r);
+                if r == R::Ok && e_alive {
+                    self.ps[p].ents[i].alive = false;
+                    self.out.class("deleted");
+                } else if ok && e_alive && !r.is_ok() {
+                    self.out.refused_deletes += 1;
+                    self.out.class(&format!("refused:{state}"));
+                    self.probe_survivors(p, i).await;
+                }
+            }
+        }
+    }
+}
+
+impl Env {
+    fn new(ps: Vec<PM>, reuse: bool) -> Self {
+        Env { ps, out: Out::default(), seq: 0, stop: false, reuse }
+    }
+}
+
+async fn scenario(c: Case) -> Out {
+    let f = factory();
+    let mut ps = vec![];
+    for _ in 0..c.participants.clamp(1, 2) {
+        let Some(Ok(p)) = call(f.create_participant(0, QosKind::Default, NO_LISTENER, NO_STATUS)).await else {
+            return Out { setup_error: Some("create_participant failed".into()), ..Default::default() };
+        };
+        ps.push(PM { alive: true, obj: p, ents: vec![], topic_names_used: 0, cft_deleted_explicitly: false, cft_deleted_by_contained: false });
+    }
+    exec::with_world(|w| w.net.log_enabled = false);
+    let mut env = Env::new(ps, c.reuse_topic_names);
+    env.out.class(if c.participants > 1 { "two-participants" } else { "one-participant" });
+    for op in &c.ops {
+        if env.stop {
+            break;
+        }
+        env.out.ops_done += 1;
+        match op {
+            Op::Create { p, kind, a, b } => {
+                let p = (*p as usize) % env.ps.len();
+                env.create(p, *kind, *a, *b).await;
+            }
+            Op::Delete { p, kind, sel, wrong_parent, via } => {
+                let p = (*p as usize) % env.ps.len();
+                env.delete(p, *kind, *sel, *wrong_parent, *via).await;
+            }
+            Op::Operate { p, kind, sel } => {
+                let p = (*p as usize) % env.ps.len();
+                let all = env.ps[p].of_kind(*kind);
+                if !all.is_empty() {
+                    let i = all[idx(*sel, all.len())];
+                    env.probe(p, i, "operate", "").await;
+                }
+            }
+            Op::ParticipantGetQos { p } => {
+                let p = (*p as usize) % env.ps.len();
+                let alive = env.ps[p].alive;
+                let r = r_of(&call(env.ps[p].obj.get_qos()).await);
+                let (want, state) = if alive { (OK, "live") } else { (err(AD), "deleted") };
+                env.check("operate", &format!("participant:{state}:get_qos"), &format!("get_qos on participant {p}"), want, &r);
+            }
+            Op::DeleteContained { p } => {
+                let p = (*p as usize) % env.ps.len();
+                let alive = env.ps[p].alive;
+                let r = r_of(&call(env.ps[p].obj.delete_contained_entities()).await);
+                let (want, state) = if alive { (OK, "live") } else { (err(AD), "deleted-participant") };
+                let n = env.ps[p].ents.iter().filter(|e| e.alive).count();
+                env.check("delete-contained", state, &format!("delete_contained_entities on participant {p} holding {n} entities"), want, &r);
+                if r == R::Ok && alive {
+                    env.out.class(if n > 0 { "delete-contained-nonempty" } else { "delete-contained-empty" });
+                    if env.ps[p].ents.iter().any(|e| e.alive && e.kind == K::Cft) {
+                        env.ps[p].cft_deleted_by_contained = true;
+                    }
+                    for e in env.ps[p].ents.iter_mut() {
+                        e.alive = false;
+                    }
+                }
+            }
+            Op::DeleteParticipant { p } => {
+                let p = (*p as usize) % env.ps.len();
+                let alive = env.ps[p].alive;
+                let empty = env.ps[p].is_empty();
+                let r = r_of(&call(f.delete_participant(&env.ps[p].obj)).await);
+                let (want, state) = if !alive {
+                    (err(AD), "already-deleted")
+                } else if empty {
+                    (OK, env.ps[p].emptied_shape())
+                } else {
+                    (err(PNM), "has-entities")
+                };
+                let ok = env.check("delete-participant", state, &format!("delete_participant of participant {p}"), want, &r);
+                if r == R::Ok && alive {
+                    env.ps[p].alive = false;
+                    env.out.class("participant-deleted");
+                } else if ok && alive && !empty {
+                    env.out.refused_deletes += 1;
+                    env.out.class("refused:participant-has-entities");
+                    let r = r_of(&call(env.ps[p].obj.get_qos()).await);
+                    env.check("unchanged-after-refusal", "participant:get_qos", &format!("get_qos on participant {p} after refused deletion"), OK, &r);
+                    let kids: Vec<usize> = (0..env.ps[p].ents.len()).filter(|j| env.ps[p].ents[*j].alive).collect();
+                    for j in kids {
+                        env.probe(p, j, "unchanged-after-refusal", "child-").await;
+                    }
+                }
+            }
+        }
+    }
+    // ---- final sweep: every entity ever created answers as the model says
+    if !env.stop {
+        for p in 0..env.ps.len() {
+            for i in 0..env.ps[p].ents.len() {
+                if env.stop {
+                    break;
+                }
+                env.probe(p, i, "final-sweep", "").await;
+            }
+        }
+    }
+    // ---- and an emptied participant is deletable
+    if !env.stop {
+        for p in 0..env.ps.len() {
+            if env.ps[p].alive {
+                let n = env.ps[p].ents.iter().filter(|e| e.alive).count();
+                let r = r_of(&call(env.ps[p].obj.delete_contained_entities()).await);
+                env.check("delete-contained", "live", &format!("final delete_contained_entities on participant {p} holding {n} entities"), OK, &r);
+                if r == R::Ok {
+                    if env.ps[p].ents.iter().any(|e| e.alive && e.kind == K::Cft) {
+                        env.ps[p].cft_deleted_by_contained = true;
+                    }
+                    for e in env.ps[p].ents.iter_mut() {
+                        e.alive = false;
+                    }
+                    let shape = env.ps[p].emptied_shape();
+                    let r = r_of(&call(f.delete_participant(&env.ps[p].obj)).await);
+                    env.check("delete-participant", shape, &format!("final delete_participant of participant {p}"), OK, &r);
+                }
+            }
+        }
+    }
+    env.out
+}
+
+pub fn eval(case: &Case) -> CaseResult {
+    let mut res = CaseResult::default();
+    match exec::run(scenario(case.clone())) {
+        Ok(out) => {
+            if let Some(e) = &out.setup_error {
+                res.harness_error = Some(e.clone());
+            } else {
+                res.verdict = pick_verdict("C36", &out.mismatches);
+                res.classes = out.classes.clone();
+                res.nontrivial = out.refused_deletes >= 1 || out.deleted_handle_ops >= 1;
+                let mut sigs: Vec<String> = out.mismatches.iter().map(|m| m.0.clone()).collect();
+                sigs.dedup();
+                res.info = json!({
+                    "ops_done": out.ops_done, "checks": out.checks, "refused_deletes": out.refused_deletes,
+                    "deleted_handle_ops": out.deleted_handle_ops, "mismatch_signatures": sigs,
+                });
+            }
+        }
+        Err(a) => apply_abort("C36", &mut res, a),
+    }
+    res.sim = sim_stats();
+    res
+}
+
+pub fn main(ctx: &Ctx) {
+    let thorough = ctx.tier == vcore::Tier::Thorough;
+    campaign(
+        ctx,
+        Campaign {
+            total_cases: ctx.pick(1_500, 75_000),
+            max_shrink_iters: 400,
+            limits: Limits { cpu_s: 30, wall_s: 120, as_bytes: 4 << 30 },
+            meta: Meta {
+                rule: "1-2 participants (20% two, same domain), 3-40(80) ops: create publisher/subscriber/topic/content-filtered topic/writer/reader (parents and topics selected among live AND deleted ones), delete (any entity ever created, 1 in 6 through the wrong parent), operate (get_qos, write, take, get_default_datawriter_qos on live and deleted handles), delete_contained_entities, factory.delete_participant; results compared with the R-ENTITY tree model; after every refused deletion the target and its children are probed, at the end every entity ever created is probed and each live participant is emptied and deleted; non-trivial = at least one deletion was due to be refused or one operation addressed a deleted entity; distinct = hash of the case",
+                assumptions: &[
+                    "deterministic simulation, async API; entities of two participants match through simulated discovery",
+                    "never called (todo!() in the async API): Publisher/Subscriber::delete_contained_entities, lookup_datawriter, Publisher/Subscriber::enable",
+                    "tolerated: error code when a deleted topic is passed to create_datawriter/create_datareader/create_contentfilteredtopic (any error); AlreadyDeleted or PreconditionNotMet when a wrong-parent deletion also involves a deleted entity; delete_topic of a topic a content-filtered topic relates to (Ok or PreconditionNotMet)",
+                    "topic names are unique per participant unless reuse_topic_names (1 case in 6), where a stale topic object is only probed, never used to delete or create",
+                    "after the first mismatch the case goes on; the verdict is the first mismatch whose signature is not a listed known finding",
+                ],
+                nontrivial_floor: 300,
+            },
+        },
+        strategy(thorough),
+        eval,
+    );
 }
